@@ -924,6 +924,16 @@ def validate_views():
                 types.append(type(e))
         ok = (types == [RuntimeError, NotImplementedError, KeyError] and issubclass(NotImplementedError, RuntimeError)
               and [i.flag_bits & 1 for i in infos] == [1, 0, 0, 0] and [i.is_dir() for i in infos] == [False, False, True, False] and z.read("c.txt") == b"z")
+        # round 7 (ZipContext view): namelist() lists a name exactly when read(name) does not raise KeyError; names are not normalised
+        names = set(z.namelist())
+        for nm in ("a.txt", "b.txt", "c.txt", "d/", "d", "A.TXT", "/a.txt", "missing", ""):
+            try:
+                z.getinfo(nm)
+                has = True
+            except KeyError:
+                has = False
+            ok = ok and ((nm in names) == has)
+        ok = ok and names == {"a.txt", "b.txt", "d/", "c.txt"}
         return ok, f"read(encrypted/unsupported/missing) raised {[t.__name__ if t else None for t in types]}"
     fact("zipfile-flag-bits-is_dir-and-read-exceptions", v_zip)
 
